@@ -150,3 +150,25 @@ _rev('C02',
      text='The algebraic content of the equivariance is proved as lemmas over the stage contracts, the stage contracts are re-verified against the real source on every run, and the relational statement for single-IMF extraction and for the component recursion of the sift is proved from the stage contracts\' assumed equivariance by two inductions whose base and step are lemmas (the induction principle is applied by the harness). That both runs extract the same number of components when the absolute sift threshold fires, the masked sift\'s composition, and the bit-for-bit clause (floating point) are decided by the bounded stand-in only. Known finding: mask sift with an odd number of phases is not sign-equivariant.')
 _rev('C01',
      technique=CLAIMED['C01']['technique'].replace('with get_next_imf replaced by its C04 contract', 'with get_next_imf replaced by its C04 contract, which is discharged in this check as well (the get_next_imf units are re-run)'))
+# ---- revisions of the last session (rounds 7 and 8 of the seeded changes)
+_rev('C10',
+     technique=CLAIMED['C10']['technique'].replace('; bounded stand-in:', '; the agreement of the dense / sparse / 1-D totals with one another and with the in-range total as lemmas over the two contracts (inductions over the recursive definition of the spec sum: finite exchange, one-bin-or-none, Fubini, congruence); bounded stand-in: call histories on one array pair,'),
+     text=CLAIMED['C10']['text'].replace('Agreement of the dense/sparse/1-D totals is bounded only.', 'The agreement of the dense / sparse / 1-D totals with one another and with the in-range total is derived from these two contracts by lemmas (base + step of each induction discharged; the induction principle is applied by the harness), for up to three IMF columns.'))
+_rev('C08',
+     technique=CLAIMED['C08']['technique'].replace('obligations: pairwise different', 'obligations: every decomposition of every member (both signs of a flip member) runs under the caller\'s option set, pairwise different'),
+     text=CLAIMED['C08']['text'].replace('the members are proved to use', 'every member decomposition is proved to receive the caller\'s imf / envelope / extrema options, the members to use'))
+_rev('C18',
+     text=CLAIMED['C18']['text'].replace('and to reject a fourth level;', 'to raise KeyError - like nested indexing, store unchanged - for an absent entry at every depth, and to reject a fourth level;'))
+_rev('C12',
+     note=PROOF_NOTE + 'Single column: any phase range (values beyond 2 pi go through the re-wrapping branch, wrap_phase by contract, the clauses then stated about the re-wrapped array); several columns: phase in [0,2pi]. return_good=False / no mask here, the good-cycle and mask paths are under C13.')
+_rev('C13',
+     note=PROOF_NOTE + 'Single column: wrapped phase, and an unwrapped phase (some value beyond 2 pi: wrap_phase by contract, criteria stated about the re-wrapped array); several columns: phase in [0,2pi]; mask is a vector.')
+_rev('C15',
+     text=CLAIMED['C15']['text'].replace('Condition-string parsing,', 'The two routes to an augmented cycle - augment_slice for the cached slices, map_cycle_to_samples_augmented without the cache - are proved against one specification (start right after the closest sample below 3pi/2 on the left; none when there is no such sample). Condition-string parsing,'))
+_rev('C10',
+     technique=CLAIMED['C10']['technique'] + '; frame condition (no write reaches the caller\'s arrays) on every unit',
+     note=CLAIMED['C10']['note'])
+_rev('C05',
+     text=CLAIMED['C05']['text'].replace('add only outside, cover both record ends and terminate;', 'add only outside - every added extremum, of every padding round, carrying the magnitude of the first / last detected one -, cover both record ends and terminate;'))
+_rev('C07',
+     note=PROOF_NOTE + 'cos uninterpreted; Pool.starmap contract assumed (OS scheduling is inside that assumption); std is an uninterpreted function of the vector; phase counts 1,2,3,4,7,8 in the quick tier, 1..8 in the thorough tier.')
